@@ -185,9 +185,12 @@ def simple_call(draw, c):
     always binds unless an extra is added on purpose."""
     parts, pairs = [], []
     keyword_mode = False
+    unfilled = []
     for (nm, kind, t, has_d) in c["params"]:
         if has_d and draw(st.integers(0, 2)) == 0:
             keyword_mode = True  # later ones must be keywords
+            if kind != "po":
+                unfilled.append(t)
             continue
         a = draw(typed_arg(t))
         if has_d and isinstance(has_d, str) and draw(st.integers(0, 2)) == 0:
@@ -203,11 +206,24 @@ def simple_call(draw, c):
             a = draw(typed_arg(c["var_t"]))
             parts.append(a)
             pairs.append((a, c["var_t"]))
+        if draw(st.integers(0, 3)) == 0:
+            # a non-literal *sequence next to explicit extra positionals
+            fn, inside = draw(st.sampled_from([("seq_int", "<type:int>"), ("seq_str", "<type:str>")]))
+            parts.append(f"*{fn}()")
+            pairs.append((inside, c["var_t"]))
     if c["kwv_t"]:
         for k in draw(st.lists(st.sampled_from(["zz", "yy"]), max_size=2, unique=True)):
             a = draw(typed_arg(c["kwv_t"]))
             parts.append(f"{k}={a}")
             pairs.append((a, c["kwv_t"]))
+        if draw(st.integers(0, 2)) == 0:
+            # a non-literal **mapping next to explicit extra keywords
+            fn, inside = draw(st.sampled_from([("kwmap_int", "<type:int>"), ("kwmap_str", "<type:str>")]))
+            parts.append(f"**{fn}()")
+            pairs.append((inside, c["kwv_t"]))
+            # a mapping with unknown keys may also fill every keyword-capable parameter left unfilled
+            for t in unfilled:
+                pairs.append((inside, t))
     return ", ".join(parts), pairs
 
 
@@ -231,6 +247,17 @@ def generic_call(draw, g):
 
 
 HEADER = "from typing import *\nfrom typing_extensions import *\nimport dataclasses\nfrom pv_vocab import *\n"
+
+
+def pair_verdict(a, t):
+    """Does the argument belong to the parameter type?  `<type:X>` stands for a non-literal source
+    declared to hold X (the elements of `*seq_int()`, the values of `**kwmap_str()`): every inhabitant of
+    X must belong."""
+    if a.startswith("<type:"):
+        ws = member.inhabitants(member.from_rt(eval(a[6:-1], NS)), 10)
+        vs = [member.mem(w, ty(t)) for w in ws]
+        return False if any(v is False for v in vs) else (None if any(v is None for v in vs) or not vs else True)
+    return member.mem(eval(a, NS), ty(t))
 
 
 def judge(items, checker, col=None):
@@ -302,8 +329,7 @@ def judge(items, checker, col=None):
             if not c.get("generic"):
                 verdicts = []
                 for a, t in pairs:
-                    o = eval(a, NS)
-                    verdicts.append((a, t, member.mem(o, ty(t))))
+                    verdicts.append((a, t, pair_verdict(a, t)))
                 if any(v is None for _, _, v in verdicts):
                     if col is not None:
                         col.skipped += 1
@@ -321,7 +347,7 @@ def judge(items, checker, col=None):
                                       c, argtext, pairs))
                     else:
                         a, t = bad[0]
-                        o = eval(a, NS)
+                        o = eval(a, NS) if not a.startswith("<type:") else eval(a[6:-1], NS)()
                         fails.append((f"FN|{form}|param:{ctor(t)}|arg:{type(o).__name__}",
                                       f"{' / '.join(c['defs'][:3])}: `{call_src}` is not diagnosed although {a} is not a member of {t}", c, argtext, pairs))
                     continue
